@@ -15,7 +15,7 @@
 #include <unistd.h>
 
 #define MAXW 64
-#define CASEMAX 16384
+#define CASEMAX (160 * 1024) /* the largest boundary-corpus items (2^16+ entries, 2 bytes each) must be replayable alone */
 #define MAXVLOG 8
 #define MAXKNOWN 64
 #define MAXSAMPLES 4
